@@ -132,6 +132,24 @@ def jsonable(o):
     return repr(o)
 
 
+def _default_run_output(work):
+    """wannierberri.run() writes `<fout_name>-<calculator>_iter-NNNN.dat/.npz` with the default fout_name="result",
+    i.e. into the current directory (/verif).  Oracles that do not pass fout_name get one inside the check's scratch
+    directory; nothing else about run() is touched."""
+    try:
+        import wannierberri
+    except Exception:  # noqa
+        return
+    orig = getattr(wannierberri.run, "_verif_orig", wannierberri.run)
+
+    def run(*a, **k):
+        k.setdefault("fout_name", os.path.join(work, "result"))
+        return orig(*a, **k)
+    run._verif_orig = orig
+    run.__doc__ = orig.__doc__
+    wannierberri.run = run
+
+
 class Ctx:
     def __init__(self, pid, tier, seed):
         self.pid = pid
@@ -151,6 +169,7 @@ class Ctx:
         self.proof = None
         self.work = os.path.join(VERIF, ".work", f"{pid}-{os.getpid()}")
         os.makedirs(self.work, exist_ok=True)
+        _default_run_output(self.work)
         self.known = load_known(pid)
         self.searching = False
 
